@@ -67,6 +67,29 @@ func (t *tdWorld) connect(name string, s2cCap int, keepAlive uint16, will bool) 
 	return tc
 }
 
+// connectOpts is connect with the CONNECT options given by the scenario (client identifier,
+// CleanSession, will): for connections that share a client identifier.
+func (t *tdWorld) connectOpts(name string, o ConnectOpts) *tdConn {
+	c, err := vnet.DialCap(addr, 0, 0)
+	if err != nil {
+		vsched.Failf("harness: dial: %v", err)
+		return nil
+	}
+	rc := &RawClient{Name: name, W: t.w, Conn: c, vc: c.(*vnet.Conn), AutoAck: true, pendRel: map[uint16]bool{}}
+	t.w.Clients = append(t.w.Clients, rc)
+	tc := &tdConn{name: name, rc: rc, prefix: fmt.Sprintf("0.1.%d", len(t.order)+1), clean: o.Clean, cid: o.ClientID, hasWill: o.Will != nil}
+	t.conns[name] = tc
+	t.order = append(t.order, tc)
+	rc.Send(ConnectPacket(o))
+	t.w.Settle()
+	ps := rc.Take()
+	if len(ps) != 1 || ps[0].Type != refcodec.CONNACK || ps[0].ReturnCode != 0 {
+		vsched.Failf("harness: CONNECT of %s answered by %s", name, Describe(ps))
+		return nil
+	}
+	return tc
+}
+
 func (t *tdWorld) subscribe(name, filter string, q byte) {
 	c := t.conns[name]
 	c.rc.Send(&refcodec.Packet{Type: refcodec.SUBSCRIBE, ID: 1, Topics: [][]byte{[]byte(filter)}, QoSs: []byte{q}})
@@ -525,6 +548,76 @@ func tdScenarios(thorough bool) []tdScenario {
 			}})
 		}
 	}
+	// (n) two live connections of ONE persistent session (the broker does not close the older
+	// one): the newer one subscribes a filter the older never had, so the shared session
+	// lists a filter for which the older connection holds nothing in the tree.  The older
+	// connection ends (cut / keep-alive expiry / garbage): its teardown is complete all the
+	// same - goroutines gone, its will published once - and the newer connection goes on
+	// being served; then the newer one ends too.
+	for _, cause := range []string{"cut", "keepalive", "garbage"} {
+		cause := cause
+		out = append(out, tdScenario{name: "shared-persistent-session/older-" + cause, run: func(t *tdWorld) ([]func(), map[string]bool, bool, func()) {
+			t.connect("W", 0, 65535, false)
+			t.subscribe("W", "will/#", 0)
+			a1 := t.connectOpts("A1", ConnectOpts{ClientID: "x", Clean: false, KeepAlive: 10, Will: &Will{"will/a1", "gone:a1", 0, false}})
+			if a1 == nil {
+				return nil, nil, false, nil
+			}
+			t.subscribe("A1", "t/a", 1)
+			a2 := t.connectOpts("A2", ConnectOpts{ClientID: "x", Clean: false, KeepAlive: 65535, Will: &Will{"will/a2", "gone:a2", 0, false}})
+			if a2 == nil {
+				return nil, nil, false, nil
+			}
+			t.subscribe("A2", "t/b", 1)
+			t.conns["W"].rc.Take()
+			var ends []func()
+			switch cause {
+			case "cut":
+				ends = append(ends, func() { a1.rc.Cut(); a1.ended = true })
+			case "keepalive":
+				ends = append(ends, func() { vsched.Advance(16 * time.Second); a1.ended = true })
+			case "garbage":
+				ends = append(ends, func() { a1.rc.SendRaw([]byte{0xf0, 0x00}); a1.ended = true })
+			}
+			wills := func(topic string) int {
+				n := 0
+				for _, p := range t.conns["W"].rc.Take() {
+					if p.Type == refcodec.PUBLISH && string(p.Topic) == topic {
+						n++
+					}
+				}
+				return n
+			}
+			final := func() {
+				if n := wills("will/a1"); n != 1 {
+					vsched.Failf("the older of two connections of one persistent session ended by %s: its will was published %d times", cause, n)
+					return
+				}
+				// the newer connection is served as before
+				t.conns["W"].rc.Send(&refcodec.Packet{Type: refcodec.PUBLISH, Topic: []byte("t/b"), Payload: []byte("for-a2")})
+				a2.rc.Send(&refcodec.Packet{Type: refcodec.PINGREQ})
+				t.settleExcept()
+				got := a2.rc.Take()
+				if !hasType(got, refcodec.PINGRESP) || len(publishesOn(got, "t/b")) != 1 {
+					vsched.Failf("after the older connection of its session ended the newer one received %s (a PINGRESP and one PUBLISH on t/b were due)", Describe(got))
+					return
+				}
+				a2.rc.Cut()
+				a2.ended = true
+				t.settleExcept()
+				if n := wills("will/a2"); n != 1 {
+					vsched.Failf("the newer connection was cut: its will was published %d times", n)
+					return
+				}
+				if th := threadsOf(LibThreadsAlive(), a2.prefix); len(th) > 0 {
+					vsched.Failf("connection A2 has ended but %d of its goroutines are still there: %s", len(th), core.ParkedString(th))
+				}
+			}
+			// (the persistent session stays in the store: the session count of checkEnded is for clean sessions)
+			return ends, map[string]bool{"persistent-session-kept": true}, false, final
+		}})
+	}
+
 	return out
 }
 
